@@ -969,14 +969,14 @@ variable [DecidableEq ν]
 reference outputs -/
 theorem run_good (s : Spec κ ν) (st : St κ ν) (cur : Cur κ ν) (order : List Nat) (v : Valid s)
     (g : Good s cur) (hc : Covers order (combos s cur).length)
-    (hmiss : ¬ (s.useCache ∧ st.cached = some cur)) :
+    (hmiss : isHit s st cur = false) :
     run s st cur order =
       ({ children := build s (refMaps (lensOfCur cur s.iterOn) (lensOfCur cur s.zipOn)) st.children,
          outs := refOuts s cur, cached := if s.useCache then some cur else none }, .ok) := by
   unfold run
-  rw [if_neg hmiss, ready_of_good s cur g]
-  simp only [↓reduceIte, indexMapsOf_good s cur v g, evalOuts_ref s cur v g order hc,
-    complete_refOuts]
+  rw [hmiss, ready_of_good s cur g]
+  simp only [↓reduceIte, Bool.false_eq_true, indexMapsOf_good s cur v g,
+    evalOuts_ref s cur v g order hc, complete_refOuts, Bool.true_or, Bool.and_true]
 
 end RunGood
 
@@ -1111,32 +1111,47 @@ theorem inputs_build (s : Spec κ ν) (maps : List (Dict κ)) (cs : List (Child 
 
 variable [DecidableEq ν]
 
+theorem isHit_good (s : Spec κ ν) (st : St κ ν) (cur : Cur κ ν) (g : Good s cur) :
+    isHit s st cur = true ↔ s.useCache = true ∧ st.cached = some cur := by
+  simp [isHit, ready_of_good s cur g]
+
 theorem run_inv (s : Spec κ ν) (st : St κ ν) (cur : Cur κ ν) (order : List Nat) (v : Valid s)
     (hc : Good s cur → Covers order (combos s cur).length) (inv : Inv s st) :
     Inv s (run s st cur order).1 := by
-  by_cases hhit : s.useCache ∧ st.cached = some cur
-  · simp only [run, hhit, and_self, ↓reduceIte]; exact inv
+  by_cases hhit : isHit s st cur = true
+  · simp only [run, hhit, ↓reduceIte]; exact inv
+  have hhit' : isHit s st cur = false := by simpa using hhit
   by_cases g : Good s cur
-  · rw [run_good s st cur order v g (hc g) hhit]
+  · rw [run_good s st cur order v g (hc g) hhit']
     refine ⟨inputs_build s _ _ inv.inputs, ?_⟩
     intro c huc hcache _
     simp only [huc, ↓reduceIte, Option.some.injEq] at hcache
     subst hcache
     refine ⟨rfl, ?_⟩
     rw [build_eq, inv.inputs]
-  · unfold run
-    rw [if_neg hhit]
+  · have key : ∀ (b : Bool) (c : Cur κ ν), (if b then some cur else none) = some c → Good s c → False := by
+      intro b c h gc
+      cases b
+      · simp at h
+      · simp at h; exact g (h ▸ gc)
+    unfold run
+    rw [hhit']
+    simp only [Bool.false_eq_true, ↓reduceIte]
     split
     · split
       · exact inv
       · refine ⟨inputs_build s _ _ inv.inputs, ?_⟩
-        intro c huc hcache gc
-        simp only [huc, ↓reduceIte, Option.some.injEq] at hcache
-        exact absurd (hcache ▸ gc) g
+        intro c _ hcache gc
+        exact absurd gc (fun gc => key _ c hcache gc)
     · refine ⟨inv.inputs, ?_⟩
       intro c huc hcache gc
-      simp only [huc, ↓reduceIte, Option.some.injEq] at hcache
-      exact absurd (hcache ▸ gc) g
+      simp only at hcache
+      by_cases hg : (s.useCache && !s.gateCache) = true
+      · rw [if_pos hg] at hcache
+        simp only [Option.some.injEq] at hcache
+        exact absurd (hcache ▸ gc) g
+      · rw [if_neg hg] at hcache
+        exact inv.cache c huc hcache gc
 
 theorem runs_inv (s : Spec κ ν) (st : St κ ν) (hs : List (Cur κ ν × List Nat)) (v : Valid s)
     (hc : ∀ h ∈ hs, Good s h.1 → Covers h.2 (combos s h.1).length) (inv : Inv s st) :
@@ -1155,11 +1170,12 @@ theorem run_good_inv (s : Spec κ ν) (st : St κ ν) (cur : Cur κ ν) (order :
     (run s st cur order).2 = .ok ∧ (run s st cur order).1.outs = refOuts s cur ∧
     (run s st cur order).1.children = s.bodyInputs.map .input
       ++ freshChildren s (refMaps (lensOfCur cur s.iterOn) (lensOfCur cur s.zipOn)) := by
-  by_cases hhit : s.useCache ∧ st.cached = some cur
-  · have := inv.cache cur hhit.1 hhit.2 g
-    simp only [run, hhit, and_self, ↓reduceIte]
+  by_cases hhit : isHit s st cur = true
+  · have h := (isHit_good s st cur g).mp hhit
+    have := inv.cache cur h.1 h.2 g
+    simp only [run, hhit, ↓reduceIte]
     exact ⟨trivial, this.1, this.2⟩
-  · rw [run_good s st cur order v g hc hhit]
+  · rw [run_good s st cur order v g hc (by simpa using hhit)]
     exact ⟨rfl, rfl, by rw [build_eq, inv.inputs]⟩
 
 end Build
@@ -1452,5 +1468,173 @@ theorem length_freshChildren_ref (s : Spec κ ν) (N Z : List (κ × Nat)) (g : 
     omega
 
 end Count
+
+section InRange
+variable {κ ν : Type} [DecidableEq κ]
+
+
+theorem mem_nestedMap (N : List (κ × Nat)) (idx : List Nat) (h : Below idx (N.map (·.2))) (k : κ) (i : Nat)
+    (hm : (k, i) ∈ nestedMap (N.map (·.1)) idx) : ∃ n, (k, n) ∈ N ∧ i < n := by
+  unfold nestedMap at hm
+  rcases mem_dupdate _ _ _ hm with h' | h'
+  · cases h'
+  · exact mem_zip_below N idx h k i h'
+
+theorem mem_zippedMap (Z : List (κ × Nat)) (z : Nat) (hz : z < minLens (Z.map (·.2))) (k : κ) (i : Nat)
+    (hm : (k, i) ∈ zippedMap (Z.map (·.1)) z) : ∃ n, (k, n) ∈ Z ∧ i < n := by
+  unfold zippedMap at hm
+  rcases mem_dupdate _ _ _ hm with h' | h'
+  · cases h'
+  · simp only [List.map_map, List.mem_map, Function.comp_def, Prod.mk.injEq] at h'
+    obtain ⟨p, hp, rfl, rfl⟩ := h'
+    have := minLens_le (Z.map (·.2)) p.2 (List.mem_map.mpr ⟨p, hp, rfl⟩)
+    exact ⟨p.2, hp, by omega⟩
+
+/-- every entry of every index map the code produces (any key lists: duplicates, overlap,
+empty lists) is an index into the list of its key: the injected `GetItem` nodes never go out
+of range -/
+theorem indexMaps_in_range (N Z : List (κ × Nat)) (maps : List (Dict κ)) (h : indexMaps N Z = .ok maps)
+    (m : Dict κ) (hm : m ∈ maps) (k : κ) (i : Nat) (hki : (k, i) ∈ m) :
+    ∃ n, (k, n) ∈ N ++ Z ∧ i < n := by
+  have hzlt : ∀ z, z < (if Z.length = 0 then 0 else minLens (Z.map (·.2))) → z < minLens (Z.map (·.2)) := by
+    intro z hz
+    by_cases hZ : Z.length = 0
+    · simp [hZ] at hz
+    · simpa [hZ] using hz
+  unfold indexMaps at h
+  simp only at h
+  generalize (if (N.map (·.2)).length > 0 then prodLens (N.map (·.2)) else 0) = nNest at h
+  generalize (if Z.length = 0 then 0 else minLens (Z.map (·.2))) = nZip at h hzlt
+  by_cases c1 : nNest > 0 ∧ nZip > 0
+  · rw [if_pos c1] at h
+    simp only [Except.ok.injEq] at h
+    subst h
+    simp only [List.mem_flatMap, List.mem_map, List.mem_range] at hm
+    obtain ⟨idx, hidx, z, hz, rfl⟩ := hm
+    rcases mem_dupdate _ _ _ hki with h' | h'
+    · obtain ⟨n, hn, hi⟩ := mem_nestedMap N idx ((mem_product _ _).mp hidx) k i h'
+      exact ⟨n, by simp [hn], hi⟩
+    · obtain ⟨n, hn, hi⟩ := mem_zippedMap Z z (hzlt z hz) k i h'
+      exact ⟨n, by simp [hn], hi⟩
+  · rw [if_neg c1] at h
+    by_cases c2 : nNest > 0
+    · rw [if_pos c2] at h
+      simp only [Except.ok.injEq] at h
+      subst h
+      simp only [List.mem_map] at hm
+      obtain ⟨idx, hidx, rfl⟩ := hm
+      obtain ⟨n, hn, hi⟩ := mem_nestedMap N idx ((mem_product _ _).mp hidx) k i hki
+      exact ⟨n, by simp [hn], hi⟩
+    · rw [if_neg c2] at h
+      by_cases c3 : nZip > 0
+      · rw [if_pos c3] at h
+        simp only [Except.ok.injEq] at h
+        subst h
+        simp only [List.mem_map, List.mem_range] at hm
+        obtain ⟨z, hz, rfl⟩ := hm
+        obtain ⟨n, hn, hi⟩ := mem_zippedMap Z z (hzlt z hz) k i hki
+        exact ⟨n, by simp [hn], hi⟩
+      · rw [if_neg c3] at h
+        cases h
+
+theorem lensOf_zip (data : κ → DLen) (keys : List κ) (l : List Nat) (h : lensOf data keys = .ok l)
+    (k : κ) (n : Nat) (hm : (k, n) ∈ keys.zip l) : data k = .len n := by
+  induction keys generalizing l with
+  | nil => simp at hm
+  | cons k0 r ih =>
+    simp only [lensOf] at h
+    split at h
+    · cases h
+    · cases h
+    · rename_i n0 hd
+      split at h
+      · rename_i l' hl'
+        simp only [Except.ok.injEq] at h
+        subst h
+        simp only [List.zip_cons_cons, List.mem_cons, Prod.mk.injEq] at hm
+        rcases hm with ⟨rfl, rfl⟩ | hm
+        · exact hd
+        · exact ih l' hl' hm
+      · cases h
+
+theorem indexMapsOf_in_range (data : κ → DLen) (nested zipped : Option (List κ)) (maps : List (Dict κ))
+    (h : indexMapsOf data nested zipped = .ok maps) (m : Dict κ) (hm : m ∈ maps) (k : κ) (i : Nat)
+    (hki : (k, i) ∈ m) : ∃ n, data k = .len n ∧ i < n := by
+  unfold indexMapsOf at h
+  split at h
+  · cases h
+  · rename_i nl hnl
+    split at h
+    · cases h
+    · rename_i zl hzl
+      split at h
+      · rename_i maps' hmaps
+        simp only [Except.ok.injEq] at h
+        subst h
+        obtain ⟨n, hn, hi⟩ := indexMaps_in_range _ _ _ hmaps m hm k i hki
+        rcases List.mem_append.mp hn with hn | hn
+        · exact ⟨n, lensOf_zip data _ nl hnl k n hn, hi⟩
+        · exact ⟨n, lensOf_zip data _ zl hzl k n hn, hi⟩
+      · cases h
+
+end InRange
+
+section RowForm
+variable {κ ν : Type} [DecidableEq κ]
+
+
+omit [DecidableEq κ] in
+theorem getElem?_flatMap_const {α β : Type} (L : List α) (f : α → List β) (P : Nat) (hP : 0 < P)
+    (h : ∀ a ∈ L, (f a).length = P) (r : Nat) :
+    (L.flatMap f)[r]? = (L[r / P]?).bind fun a => (f a)[r % P]? := by
+  induction L generalizing r with
+  | nil => simp
+  | cons a L' ih =>
+    have ha := h a (by simp)
+    have ih' := ih (fun x hx => h x (by simp [hx]))
+    simp only [List.flatMap_cons]
+    by_cases hr : r < P
+    · rw [List.getElem?_append_left (by omega)]
+      simp [Nat.div_eq_of_lt hr, Nat.mod_eq_of_lt hr]
+    · have hge : P ≤ r := by omega
+      rw [List.getElem?_append_right (by omega), ha, ih' (r - P)]
+      rw [Nat.div_eq_sub_div hP hge, Nat.mod_eq_sub_mod hge]
+      simp
+
+theorem getElem?_product (l : List Nat) (r : Nat) (hr : r < prodLens l) :
+    (product l)[r]? = some (digits l r) := by
+  induction l generalizing r with
+  | nil => simp [prodLens] at hr; subst hr; rfl
+  | cons n rest ih =>
+    simp only [prodLens] at hr
+    have hP : 0 < prodLens rest := by
+      rcases Nat.eq_zero_or_pos (prodLens rest) with h | h
+      · rw [h] at hr; omega
+      · exact h
+    simp only [product, digits]
+    rw [getElem?_flatMap_const _ _ (prodLens rest) hP (by intro a _; simp [length_product])]
+    have h1 : r / prodLens rest < n := by
+      apply Nat.div_lt_of_lt_mul; rw [Nat.mul_comm]; exact hr
+    have h2 : r % prodLens rest < prodLens rest := Nat.mod_lt _ hP
+    simp [List.getElem?_range h1, ih _ h2]
+
+/-- closed form of the rows: row `r` pairs the mixed-radix digits of `r / Z` over the nested
+lengths with the zipped index `r % Z` (`Z` = number of zipped steps) -/
+theorem getElem?_refMaps (N Z : List (κ × Nat)) (r : Nat) (hr : r < rowCount N Z) :
+    (refMaps N Z)[r]? = some ((N.map (·.1)).zip (digits (N.map (·.2)) (r / zipCount Z))
+      ++ Z.map fun kz => (kz.1, r % zipCount Z)) := by
+  unfold rowCount at hr
+  have hZ : 0 < zipCount Z := by
+    rcases Nat.eq_zero_or_pos (zipCount Z) with h | h
+    · rw [h] at hr; omega
+    · exact h
+  unfold refMaps
+  rw [getElem?_flatMap_const _ _ (zipCount Z) hZ (by intro a _; simp [refZipped_eq])]
+  have h1 : r / zipCount Z < prodLens (N.map (·.2)) := by
+    apply Nat.div_lt_of_lt_mul; rw [Nat.mul_comm]; exact hr
+  have h2 : r % zipCount Z < zipCount Z := Nat.mod_lt _ hZ
+  simp [refNested, refZipped_eq, getElem?_product _ _ h1, List.getElem?_range h2]
+
+end RowForm
 
 end PwVerif.ForLoop
